@@ -23,16 +23,15 @@ use crate::execution_step::value_types::IterableItem;
 use crate::execution_step::value_types::IterableVecResolvedCall;
 use crate::execution_step::ValueAggregate;
 
-use air_interpreter_data::GenerationIdx;
-
 pub(crate) type IterableValue = Box<dyn for<'ctx> Iterable<'ctx, Item = IterableItem<'ctx>>>;
 
-/// Tracks a state of a stream by storing last generation of every value type.
-#[derive(Debug, Clone, Copy)]
+/// Tracks a state of a stream by storing how many values of every generation were already visited,
+/// while a fold replays data values could be added to any generation of every value type.
+#[derive(Debug, Clone, Default)]
 pub struct StreamCursor {
-    pub previous_start_idx: GenerationIdx,
-    pub current_start_idx: GenerationIdx,
-    pub new_start_idx: GenerationIdx,
+    pub previous_seen_lens: Vec<usize>,
+    pub current_seen_lens: Vec<usize>,
+    pub new_seen_lens: Vec<usize>,
 }
 
 /// Intended to generate values for recursive stream handling.
@@ -42,7 +41,7 @@ pub struct StreamCursor {
 ///    met_fold_start  - met_iteration_end - ... met_iteration_end - Exhausted
 ///          |                  |
 ///      Exhausted          Exhausted
-#[derive(Debug, Clone, Copy)]
+#[derive(Debug, Clone)]
 pub(crate) struct RecursiveStreamCursor {
     cursor: StreamCursor,
 }
@@ -85,7 +84,7 @@ impl RecursiveStreamCursor {
     }
 
     fn cursor_state(&self, stream: &Stream<ValueAggregate>) -> RecursiveCursorState {
-        let slice_iter = stream.slice_iter(self.cursor);
+        let slice_iter = stream.slice_iter(self.cursor.clone());
         let iterable = Self::slice_iter_to_iterable(slice_iter);
 
         RecursiveCursorState::from_iterable_values(iterable)
@@ -109,22 +108,14 @@ fn remove_last_generation_if_empty(stream: &mut Stream<ValueAggregate>) {
 
 impl StreamCursor {
     pub(crate) fn empty() -> Self {
-        Self {
-            previous_start_idx: GenerationIdx::from(0),
-            current_start_idx: GenerationIdx::from(0),
-            new_start_idx: GenerationIdx::from(0),
-        }
+        Self::default()
     }
 
-    pub(crate) fn new(
-        previous_start_idx: GenerationIdx,
-        current_start_idx: GenerationIdx,
-        new_start_idx: GenerationIdx,
-    ) -> Self {
+    pub(crate) fn new(previous_seen_lens: Vec<usize>, current_seen_lens: Vec<usize>, new_seen_lens: Vec<usize>) -> Self {
         Self {
-            previous_start_idx,
-            current_start_idx,
-            new_start_idx,
+            previous_seen_lens,
+            current_seen_lens,
+            new_seen_lens,
         }
     }
 }
